@@ -22,6 +22,7 @@ import (
 	"context"
 	"encoding/json"
 	"errors"
+	"sync"
 	"time"
 
 	"github.com/bradfitz/gomemcache/memcache"
@@ -48,6 +49,9 @@ type SessionStoreImpl[T StringOrBytes] struct {
 	ttl        time.Duration
 	prefixes   []string
 	db         SessionDatabase
+	// mutex serializes the operations that consist of multiple calls to the underlying store (e.g. GetAndDelete).
+	// It is shared by all stores of a SessionDatabase.
+	mutex *sync.Mutex
 }
 
 func (s SessionStoreImpl[T]) Delete(key string) error {
@@ -102,6 +106,10 @@ func (s SessionStoreImpl[T]) Put(key string, value interface{}, options ...Sessi
 	return s.underlying.Set(context.Background(), s.db.getFullKey(s.prefixes, key), T(bytes), store.WithExpiration(opts.ttl))
 }
 func (s SessionStoreImpl[T]) GetAndDelete(key string, target interface{}) error {
+	// Get and Delete are separate calls to the underlying store:
+	// without the lock, concurrent callers could all retrieve the same entry before any of them deletes it.
+	s.mutex.Lock()
+	defer s.mutex.Unlock()
 	if err := s.Get(key, target); err != nil {
 		return err
 	}
